@@ -1847,3 +1847,146 @@ where
 
     Ok(all_mmcs_op_ids)
 }
+
+/// Verification-only re-exports of the private arithmetic gadgets of this module
+/// (thin forwarding wrappers; compiled only with `--cfg p3r_verif`).
+#[cfg(p3r_verif)]
+pub mod verif_exports {
+    use alloc::collections::btree_map::BTreeMap;
+    use alloc::vec::Vec;
+
+    use p3_circuit::CircuitBuilder;
+    use p3_field::{ExtensionField, Field, TwoAdicField};
+
+    use crate::Target;
+
+    pub fn evaluate_polynomial<EF: Field>(
+        builder: &mut CircuitBuilder<EF>,
+        coefficients: &[Target],
+        point: Target,
+    ) -> Target {
+        super::evaluate_polynomial(builder, coefficients, point)
+    }
+
+    pub fn circuit_exp_by_constant<EF: Field>(
+        builder: &mut CircuitBuilder<EF>,
+        base: Target,
+        n: usize,
+    ) -> Target {
+        super::circuit_exp_by_constant(builder, base, n)
+    }
+
+    pub fn precompute_two_adic_powers<F, EF>(
+        builder: &mut CircuitBuilder<EF>,
+        log_height: usize,
+    ) -> Vec<Target>
+    where
+        F: Field + TwoAdicField,
+        EF: ExtensionField<F>,
+    {
+        super::precompute_two_adic_powers::<F, EF>(builder, log_height)
+    }
+
+    pub fn compute_final_query_point<F, EF>(
+        builder: &mut CircuitBuilder<EF>,
+        index_bits: &[Target],
+        log_max_height: usize,
+        total_bits_consumed: usize,
+        powers_of_g: &[Target],
+    ) -> Target
+    where
+        F: Field + TwoAdicField,
+        EF: ExtensionField<F>,
+    {
+        super::compute_final_query_point::<F, EF>(
+            builder,
+            index_bits,
+            log_max_height,
+            total_bits_consumed,
+            powers_of_g,
+        )
+    }
+
+    pub fn precompute_subgroup_starts<F, EF>(
+        builder: &mut CircuitBuilder<EF>,
+        index_bits: &[Target],
+        log_max_height: usize,
+        log_arities: &[usize],
+        cumulative_bits: &[usize],
+    ) -> Vec<Target>
+    where
+        F: Field + TwoAdicField,
+        EF: ExtensionField<F>,
+    {
+        super::precompute_subgroup_starts::<F, EF>(
+            builder,
+            index_bits,
+            log_max_height,
+            log_arities,
+            cumulative_bits,
+        )
+    }
+
+    pub fn compute_subgroup_points<F, EF>(
+        builder: &mut CircuitBuilder<EF>,
+        log_arity: usize,
+        subgroup_start: Target,
+    ) -> (Vec<Target>, Target)
+    where
+        F: Field + TwoAdicField,
+        EF: ExtensionField<F>,
+    {
+        super::compute_subgroup_points::<F, EF>(builder, log_arity, subgroup_start)
+    }
+
+    pub fn precompute_evaluation_points<F, EF>(
+        builder: &mut CircuitBuilder<EF>,
+        unique_heights_desc: &[usize],
+        index_bits: &[Target],
+        log_global_max_height: usize,
+    ) -> BTreeMap<usize, Target>
+    where
+        F: Field + TwoAdicField,
+        EF: ExtensionField<F>,
+    {
+        super::precompute_evaluation_points::<F, EF>(
+            builder,
+            unique_heights_desc,
+            index_bits,
+            log_global_max_height,
+        )
+    }
+
+    #[allow(clippy::too_many_arguments)]
+    pub fn fold_one_phase<F, EF>(
+        builder: &mut CircuitBuilder<EF>,
+        folded: Target,
+        siblings: &[Target],
+        beta: Target,
+        index_bits: &[Target],
+        bits_consumed: usize,
+        log_arity: usize,
+        roll_in: Option<Target>,
+        precomputed_beta_pow: Option<Target>,
+        precomputed_evals: Option<&[Target]>,
+        precomputed_subgroup_start: Target,
+    ) -> Target
+    where
+        F: Field + TwoAdicField,
+        EF: ExtensionField<F>,
+    {
+        super::fold_one_phase::<F, EF>(
+            builder,
+            folded,
+            siblings,
+            beta,
+            index_bits,
+            bits_consumed,
+            log_arity,
+            roll_in,
+            precomputed_beta_pow,
+            precomputed_evals,
+            precomputed_subgroup_start,
+        )
+    }
+}
